@@ -345,3 +345,29 @@ def check_gitignore(ctx: Ctx) -> None:
         ctx.ob("R-GITIGNORE-G4", f"{f.qual} :: {norm(c)[:60]}", ok, "ignore patterns must be compiled with pathspec's gitignore syntax", where(f, c))
     # comments / blank lines of ignore files are dropped before compilation, nothing else
     ctx.assume("pathspec implements gitignore pattern syntax correctly (dependency)")
+
+
+def check_cache_keys(ctx: Ctx) -> None:
+    """A memoised value may depend only on what its key is computed from (else a hit returns another input's answer)."""
+    repo, prog = ctx.repo, ctx.prog
+    n = 0
+    for fi in repo.functions.values():
+        if not fi.module.name.startswith("flowmark.file_resolver") or isinstance(fi.node, ast.Lambda) or fi.name == "__init__":
+            continue
+        flow = prog.flow(fi)
+        selfname = fi.params[0] if fi.cls is not None and fi.params else None
+        for node in flow.cfg.nodes:
+            if node.kind != "stmt" or not isinstance(node.ast, ast.Assign) or len(node.ast.targets) != 1:
+                continue
+            t = node.ast.targets[0]
+            if not (isinstance(t, ast.Subscript) and isinstance(t.value, ast.Attribute) and isinstance(t.value.value, ast.Name)
+                    and t.value.value.id == selfname):
+                continue
+            n += 1
+            key_params = prog.slice(fi, t.slice, node).params() - {selfname}
+            val_params = prog.slice(fi, node.ast.value, node).params() - {selfname}
+            extra = val_params - key_params
+            ctx.ob("R-RESOLVE-cache", f"{fi.qual} :: {norm(t)} keyed by all inputs of the cached value", not extra,
+                   f"the cached value depends on {sorted(val_params)} but the key only on {sorted(key_params)}: a later call that differs in "
+                   f"{sorted(extra)} gets the answer computed for another input", where(fi, node))
+    ctx.require("R-RESOLVE-cache", "memoising stores in the file resolver", n, 1)
